@@ -144,6 +144,9 @@ def _checkout_file(
                 prompt=prompt,
             )
     else:
+        # nothing is known about what (if anything) is at `path`: it is not
+        # in the cache as far as we can tell, so go through the guarded removal
+        _remove(path, fs, False, force=force, prompt=prompt)
         link(cache, cache_path, fs, path)
         modified = True
     return modified
